@@ -1,5 +1,6 @@
 // C11 part 1 driver: bounded exhaustive enumeration of the PPL numeric kernel against an exact GMP oracle.
 #include "harness/c11_common.hh"
+#include "initializer.hh"
 #include <algorithm>
 namespace c11 { bool& thorough_alphabets_ref(); }
 
@@ -125,8 +126,9 @@ int main(int argc, char** argv) {
     return 0;
   }
   thorough_alphabets_ref() = ARGS.thorough() || ARGS.has("--wide");
-  register_int8(); register_int16_32(); register_int64(); register_float(); register_mp();
-  register_conv_a(); register_conv_b(); register_conv_c();
+  register_int8(); register_uint8(); register_int16(); register_int32(); register_int64(); register_llong();
+  register_float(); register_double(); register_ldouble(); register_mpz(); register_mpq();
+  register_conv_a(); register_conv_b(); register_conv_c(); register_conv_d(); register_conv_e();
   std::vector<Cell>& CS = cells();
   std::string only = ARGS.opt("--only", "");
   if (ARGS.has("--list")) {
